@@ -47,10 +47,17 @@ def make_op(o: int, nops: int, positions: List[int], curved: bool = True):
         # the first operation takes its cells across (axes 1 and 2) from its neighbour; on its own it cannot be graded -
         # then neither can the fresh model
         op.chop(0, count=2)
-    else:
+    elif o == 2:
         op.chop(0, count=2)
-        # cells of a given first size: the grading depends on the length of every edge (it changes when vertices move)
-        op.chop(1, count=3, start_size=0.25, preserve="start_size")
+        # cells of a given first size: the count (5 on the unit edges, 4 once a vertex at their near end has moved up) and
+        # the grading depend on the lengths of the edges at the time of writing
+        op.chop(1, start_size=1 / 4.01, preserve="start_size")
+        op.chop(2, count=4)
+    else:
+        # every further operation takes its cells along axis 1 from the second one (directly or through the row)
+        op.chop(0, count=2)
+        if nops == 1:
+            op.chop(1, count=3)
         op.chop(2, count=4)
     if o == 1:
         op.set_patch("left", "inlet")
